@@ -774,15 +774,15 @@ def stage_solvable(ctx):
         short = [c for c in ENGINE_MATRIX if c[6] == 'short' and c[7] is None]
         shifted = [c for c in ENGINE_MATRIX if c[7] is not None]
         # exact diagonalisation of the effective Hamiltonian without mixer (for complex H from a real product state)
-        edpath = [c for c in ENGINE_MATRIX if c[1] == 'none' and c[2] in ('default', 'ED_block') and c[4] == 'full'
-                  and c[6] == 'conv' and not c[5]]
+        edpath = [c for c in ENGINE_MATRIX if c[0] == 2 and c[1] == 'none' and c[2] in ('default', 'ED_block')
+                  and c[4] == 'full' and c[6] == 'conv' and not c[5]]
         extra = [rng.choice(edpath)] if inst['twk'] != 0 else cfgs[:1]
         cfgs = [rng.choice(p5), rng.choice(short), rng.choice(shifted)] + extra + [c for c in cfgs[1:n_cfg - 3]]
         if inst['fam'] == 'ferro' and not hc_dm_done and inst['conn']:
             hc_dm_done = True
             cfgs.append((1, 'dm', 'default', False, 'full', True, 'conv', None))
         for ecfg in cfgs:
-            for s0 in product_states(inst, rng, 1 if quick else 2):
+            for s0 in product_states(inst, rng, 2 if (not quick or (inst['twk'] != 0 and ecfg in edpath)) else 1):
                 nrun += 1
                 if solvable_case(ctx, inst, ecfg, s0, 'inst%d' % j):
                     nok += 1
